@@ -51,6 +51,15 @@ func opDeepEqual(sc *Schema, s *Scenario, r *Result) error {
 		}
 	}
 	nilv := reflect.Zero(x.Type())
+	// a third object ys holds y's value but SHARES with x every struct pointer (list/set element, map value,
+	// struct field) whose value is equal in x and y -- what a shallow copy followed by an update produces
+	ys, err := build(s.X["y"])
+	if err != nil {
+		return err
+	}
+	out["shared_ptrs"] = share(x, ys)
+	call("xys", x, ys)
+	call("ysx", ys, x)
 	call("xy", x, y)
 	call("yx", y, x)
 	call("xx", x, x)
@@ -60,4 +69,68 @@ func opDeepEqual(sc *Schema, s *Scenario, r *Result) error {
 	call("nil_nil", nilv, nilv)
 	r.X = out
 	return nil
+}
+
+// share makes b reuse a's struct pointers wherever both hold reflect.DeepEqual values at the same place.
+// Returns the number of pointers shared. a and b are values of the same generated type.
+func share(a, b reflect.Value) int {
+	n := 0
+	switch a.Kind() {
+	case reflect.Ptr:
+		if a.IsNil() || b.IsNil() || a.Type().Elem().Kind() != reflect.Struct {
+			return 0
+		}
+		return share(a.Elem(), b.Elem())
+	case reflect.Struct:
+		for i := 0; i < a.NumField(); i++ {
+			fa, fb := a.Field(i), b.Field(i)
+			if !fb.CanSet() {
+				continue
+			}
+			n += shareSlot(fa, fb)
+		}
+	case reflect.Slice:
+		if a.Type().Elem().Kind() == reflect.Uint8 {
+			return 0
+		}
+		for i := 0; i < a.Len() && i < b.Len(); i++ {
+			n += shareSlot(a.Index(i), b.Index(i))
+		}
+	case reflect.Map:
+		if a.IsNil() || b.IsNil() {
+			return 0
+		}
+		for _, k := range a.MapKeys() {
+			va, vb := a.MapIndex(k), b.MapIndex(k)
+			if !vb.IsValid() {
+				continue
+			}
+			if va.Kind() == reflect.Ptr && va.Type().Elem().Kind() == reflect.Struct && !va.IsNil() && !vb.IsNil() {
+				if reflect.DeepEqual(va.Interface(), vb.Interface()) {
+					b.SetMapIndex(k, va)
+					n++
+				} else {
+					n += share(va, vb)
+				}
+			}
+		}
+	}
+	return n
+}
+
+func shareSlot(fa, fb reflect.Value) int {
+	if fa.Kind() == reflect.Ptr && fa.Type().Elem().Kind() == reflect.Struct {
+		if fa.IsNil() || fb.IsNil() {
+			return 0
+		}
+		if reflect.DeepEqual(fa.Interface(), fb.Interface()) {
+			fb.Set(fa)
+			return 1
+		}
+		return share(fa, fb)
+	}
+	if fa.Kind() == reflect.Slice || fa.Kind() == reflect.Map || fa.Kind() == reflect.Struct {
+		return share(fa, fb)
+	}
+	return 0
 }
